@@ -57,7 +57,7 @@ func TestDrive(t *testing.T) {
 	// durably blocked, so synctest cannot report the hang; executions normally take milliseconds, so no
 	// logged event and no released gate for a long stretch of real time inside one execution is a livelock.
 	// The process ends with exit code 77 and the goroutine stacks; the orchestrator decides what that means.
-	limit := time.Duration(envInt("VERIF_WATCHDOG_S", 60)) * time.Second
+	limit := time.Duration(envInt("VERIF_WATCHDOG_S", 90)) * time.Second
 	go func() {
 		last, since := ctl.Progress.Load(), time.Now()
 		for {
